@@ -7,6 +7,9 @@ pub mod c02;
 #[cfg(feature = "ref")]
 pub mod c03;
 pub mod c04;
+pub mod c08;
+pub mod c09;
+pub mod c10;
 
 pub fn n_cases(ctx: &Ctx) -> u64 {
     match ctx.prop.as_str() {
@@ -15,6 +18,9 @@ pub fn n_cases(ctx: &Ctx) -> u64 {
         #[cfg(feature = "ref")]
         "C03" => c03::n_cases(ctx),
         "C04" => c04::n_cases(ctx),
+        "C08" => c08::n_cases(ctx),
+        "C09" => c09::n_cases(ctx),
+        "C10" => c10::n_cases(ctx),
         _ => 0,
     }
 }
@@ -26,13 +32,18 @@ pub fn run_case(ctx: &Ctx, idx: u64) -> Vec<CaseOut> {
         #[cfg(feature = "ref")]
         "C03" => c03::run_case(ctx, idx),
         "C04" => c04::run_case(ctx, idx),
+        "C08" => c08::run_case(ctx, idx),
+        "C09" => c09::run_case(ctx, idx),
+        "C10" => c10::run_case(ctx, idx),
         _ => Vec::new(),
     }
 }
 
 /// Extra JSON fields for the shard summary.
 pub fn summary_extra(_ctx: &Ctx) -> Vec<(String, String)> {
-    vec![("counters".into(), crate::case::counters_json())]
+    let mut v = vec![("counters".into(), crate::case::counters_json())];
+    v.extend(crate::case::stats_extra());
+    v
 }
 
 /// JSON description of a case without running it (used to label crashes): component, trigger,
